@@ -24,7 +24,6 @@ def main():
     scratch = tempfile.mkdtemp(prefix="sasverif_%s_" % prop)
     atexit.register(shutil.rmtree, scratch, True)
     os.environ["SAS_DLL_PATH"] = os.path.join(scratch, "dll")
-    os.environ["SAS_COMPILER"] = os.environ.get("SAS_COMPILER", "")
     os.environ["VERIF_SCRATCH"] = scratch
     os.environ.setdefault("HOME", scratch)
     if args.replay:
